@@ -23,7 +23,7 @@ QUICK = [
 
 
 def run(check):
-    runs = usimrun.explore(check, None, QUICK if check.tier == 'quick' else THOROUGH, invariants=INV, limit=15000 if check.tier == 'quick' else None)
+    runs = usimrun.explore(check, None, QUICK if check.tier == 'quick' else THOROUGH, invariants=INV, limit=15000 if check.tier == 'quick' else 250000)
     rng = random.Random(check.seed)
     n = 3000 if check.tier == 'quick' else 40000
     progs = [storm.tick_program(rng) for _ in range(n)]
